@@ -615,7 +615,7 @@ func callSSAx(i *interpreter, caller *frame, callpos token.Pos, fn *ssa.Function
 		if o := fn.Origin(); o != nil {
 			name = o.String()
 		}
-		if ext := intrinsics[name]; ext != nil {
+		if ext := intrinsics[name]; ext != nil && !i.cfg.RealFns[name] {
 			if r, handled := ext(fr, args); handled {
 				return r
 			}
